@@ -315,6 +315,7 @@ def check_algebra(case):
     for t in tabs:
         hold(build_mdd(mdd, t, doms, level_of), t)
     nt = False
+    after_gc = 0
 
     class _Pick:
         def __getitem__(self, i):
@@ -349,6 +350,8 @@ def check_algebra(case):
                 pass
             else:
                 raise Violation('mdd.quantifier_alias_accepted')
+        elif kind == 'build':
+            hold(build_mdd(mdd, op[1] & FD, doms, level_of), op[1] & FD)
         elif kind == 'drop':
             if held:
                 r, t = held.pop(op[1] % len(held))
@@ -361,11 +364,33 @@ def check_algebra(case):
             require(set(mdd._succ) == want, 'mdd.gc_not_exactly_reachable',
                     dict(extra=sorted(set(mdd._succ) - want)[:5],
                          missing=sorted(want - set(mdd._succ))[:5]))
+            after_gc = 2
         elif kind == 'rebuild':
             # second construction route: canonicity
             u, tu = pick[op[1]]
             r2 = build_mdd(mdd, tu, doms, level_of)
             require(r2 == u, 'mdd.not_canonical', dict(u=u, r2=r2))
+        # for two steps after a collection: recompute connectives on the
+        # held functions (a result remembered for a freed, re-used node
+        # number would show up here)
+        if after_gc and kind != 'gc':
+            after_gc -= 1
+            for (u, tu), (v, tv) in itertools.product(
+                    held[:2] + held[-3:], repeat=2):
+                for alias in ('and', 'xor'):
+                    r = mdd.apply(alias, u, v)
+                    require(mdd_table(mdd, r, doms) ==
+                            _pointwise(alias, tu, tv, FD),
+                            'mdd.wrong_after_gc', dict(alias=alias))
+        # computed table: only live nodes, every entry correct
+        for (g_, u_, v_), w_ in mdd._ite_table.items():
+            for x_ in (g_, u_, v_, w_):
+                require(abs(x_) in mdd._succ, 'mdd.cache_dead_node',
+                        dict(entry=(g_, u_, v_, w_)))
+            tg_, tu_, tv_ = (mdd_table(mdd, x_, doms) for x_ in (g_, u_, v_))
+            require(mdd_table(mdd, w_, doms) ==
+                    ((tg_ & tu_) | (~tg_ & tv_)) & FD,
+                    'mdd.cache_wrong_entry', dict(entry=(g_, u_, v_, w_)))
         # invariants after every step
         check_mdd_structure(mdd, {k: v for k, v in ledger.items() if v})
         for r, t in held:
@@ -423,6 +448,10 @@ def run_algebra(spec, out):
             st.tuples(st.just('quant'), st.integers(0, 3),
                       st.integers(0, 9)),
             st.tuples(st.just('drop'), st.integers(0, 9)),
+            st.tuples(st.just('drop'), st.integers(0, 9)),
+            st.tuples(st.just('build'), st.integers(0, (1 << D) - 1)),
+            st.tuples(st.just('build'), st.integers(0, (1 << D) - 1)),
+            st.tuples(st.just('gc')),
             st.tuples(st.just('gc')),
             st.tuples(st.just('rebuild'), st.integers(0, 9)),
         ).map(list)
@@ -431,7 +460,7 @@ def run_algebra(spec, out):
             levels=list(draw(st.permutations(range(nv)))),
             tabs=draw(st.lists(st.integers(0, (1 << D) - 1), min_size=1,
                                max_size=3)),
-            ops=draw(st.lists(op, min_size=3, max_size=15)))
+            ops=draw(st.lists(op, min_size=4, max_size=25)))
 
     @hypothesis.seed(spec['seed'])
     @settings(max_examples=spec['examples'], deadline=None, database=None,
